@@ -162,6 +162,14 @@ void do_op(string op, string ctx) {
     vlog("\"e\":\"InputTo\",\"u\":" + jq(me()));
     input_to("it_cb");
     break;
+  case "exec":     // hand the connection over to a fresh user object (login object -> body), keeping the name
+    o = new("/user");
+    o->set_uname(this_object()->query_uname());
+    "/reg"->put(this_object()->query_uname(), o);
+    vlog("\"e\":\"Exec\",\"u\":" + jq(me()));
+    exec(o, this_object());
+    o->take_over();
+    break;
   case "force":
     for (r = 0; r < to_int(f[1]); r++) { vlog("\"e\":\"Forced\",\"u\":" + jq(me()) + ",\"i\":" + r); command("x forced" + r); }
     break;
